@@ -218,10 +218,14 @@ package server
 //@ pred statusesKnown(rs []*spb.AFTResult) = forall i in 0..len(rs) :: rs[i].Status == spb.AFTResult_RIB_PROGRAMMED
 //@   || rs[i].Status == spb.AFTResult_FIB_PROGRAMMED || rs[i].Status == spb.AFTResult_FAILED
 
+// ribReady: the RIB's representation invariants hold and this call chain holds none of its locks.
+//@ pred ribReady(r *rib.RIB) = holdersWF(r) && pendingWF(r) && ribQuiet(r) && rib.unixTS != nil
+
 //@ unit modifyEntry
-//@ requires r != nil ==> holdersNonNil(r)
+//@ requires r != nil ==> ribReady(r)
+//@ requires[wire-valid] op != nil ==> opWF(op)
 //@ ensures[nil-op] op == nil ==> result1 != nil && result0 == nil
-//@ ensures[holders] r != nil ==> holdersNonNil(r)
+//@ ensures[holders] r != nil ==> ribReady(r)
 //@ ensures[one-of] (result0 == nil) != (result1 == nil)
 //@ ensures[unauthorised-no-rib] op != nil && !authorised(op.ElectionId, election) ==> ribState == old(ribState)
 //@ ensures[unauthorised-answer] op != nil && !authorised(op.ElectionId, election) ==> result1 != nil || failedFor(result0, op.Id)
@@ -235,7 +239,7 @@ package server
 //@ loop 1 invariant resultsOK(oks) && resultsOK(faileds) && op != nil
 //@ loop 2 at "range faileds" invariant fibOnlyAfterRib(results) && ribThenFib(results, fibACK) && statusesKnown(results)
 //@ loop 2 invariant resultsOK(faileds) && op != nil
-//@ assigns ribState
+//@ assigns ribState, spawned, hookCount
 //@ props C04 C06 C01 C12:safety
 
 //@ pred resultsOK(rs []*rib.OpResult) = forall i in 0..len(rs) :: rs[i] != nil
@@ -244,8 +248,8 @@ package server
 //@ pred supportedSession(c *clientState) = c != nil && c.params != nil && c.params.ExpectElecID && c.params.Persist
 
 //@ unit Server.doModify
-//@ requires csWF(s) && s.masterRIB != nil && holdersNonNil(s.masterRIB)
-//@ requires[wire-valid] forall i in 0..len(ops) :: ops[i] != nil
+//@ requires csWF(s) && s.masterRIB != nil && ribReady(s.masterRIB)
+//@ requires[wire-valid] forall i in 0..len(ops) :: opWF(ops[i])
 //@ ensures[unknown-client] !(cid in dom(s.cs)) ==> len(sent(errCh)) == old(len(sent(errCh))) + 1 && len(sent(resCh)) == old(len(sent(resCh)))
 //@   && ribState == old(ribState)
 //@ ensures[unsupported-mode] cid in dom(s.cs) && !supportedSession(s.cs[cid]) ==> len(sent(errCh)) == old(len(sent(errCh))) + 1
@@ -255,8 +259,8 @@ package server
 //@ ensures[one-answer-per-op] cid in dom(s.cs) && supportedSession(s.cs[cid]) ==>
 //@   len(sent(resCh)) + len(sent(errCh)) == old(len(sent(resCh))) + old(len(sent(errCh))) + len(ops)
 //@ loop 1 at "range ops" invariant len(sent(resCh)) + len(sent(errCh)) == old(len(sent(resCh))) + old(len(sent(errCh))) + loopi
-//@ loop 1 invariant holdersNonNil(s.masterRIB) && s.masterRIB != nil && supportedSession(cs) && elec != nil
-//@ assigns sent(resCh), sent(errCh), ribState
+//@ loop 1 invariant ribReady(s.masterRIB) && s.masterRIB != nil && supportedSession(cs) && elec != nil
+//@ assigns sent(resCh), sent(errCh), ribState, spawned, hookCount
 //@ props C06 C04 C09 C12:safety
 
 //@ fnfield unixTS
@@ -269,7 +273,7 @@ package server
 //@       && u128(req.GetId().High, req.GetId().Low) >= u128(cur.High, cur.Low))
 
 //@ unit Server.Flush
-//@ requires s != nil && s.masterRIB != nil && holdersNonNil(s.masterRIB) && unixTS != nil
+//@ requires s != nil && s.masterRIB != nil && ribReady(s.masterRIB) && unixTS != nil
 //@ requires[wire-valid] req != nil ==> oneofOK(req.Election) && oneofOK(req.NetworkInstance)
 //@ ensures[nil-req] req == nil ==> result1 != nil && ribState == old(ribState)
 //@ ensures[no-ni] req != nil && req.GetNetworkInstance() == nil ==> result1 != nil && errCode(result1) == codes.InvalidArgument && ribState == old(ribState)
@@ -283,5 +287,5 @@ package server
 //@   ==> result1 == nil && result0 != nil && result0.Result == spb.FlushResponse_OK
 //@ ensures[one-of] (result0 == nil) != (result1 == nil)
 //@ ensures[election-untouched] s.curElecID == old(s.curElecID) && s.curMaster == old(s.curMaster)
-//@ assigns ribState
+//@ assigns ribState, hookCount
 //@ props C08 C12:safety
